@@ -414,7 +414,7 @@ def _resolve_import(rule, target):
     for r in importedSheet:
         if r.type == r.IMPORT_RULE:
             # a kept @import: re-base it too, without loading its target again
-            r._href = replacer(r.href)
+            r._setHref(replacer(r.href), load=False)
 
     try:
         media_proxy = _check_media_proxy(rule, importedSheet)
